@@ -2,7 +2,7 @@
    resolution) with property C04's theorem about draw_screen (draw_paints), imported read-only. *)
 From Coq Require Import ZArith List Bool Lia ZifyBool.
 Import ListNotations.
-From Urwid Require Import PyBase PyList TermRef DrawScreen PaintSpec TermRefFacts DrawScreenProofs.
+From Urwid Require Import PyBase PyList attrspec_escape_gen TermRef DrawScreen PaintSpec TermRefFacts DrawScreenProofs.
 From Urwid Require Import AttrFlow AttrFlowBasics AttrFlowMarkup AttrFlowLayout AttrFlowClip AttrFlowTrim AttrFlowCells
   AttrFlowSgr AttrFlowPalette AttrFlowE2E.
 Open Scope Z_scope.
@@ -18,11 +18,27 @@ Arguments Z.eqb : simpl never.
 Arguments Z.to_nat : simpl never.
 Arguments Z.of_nat : simpl never.
 
-(* ---------- the two models of _attrspec_to_escape agree ---------- *)
+(* ---------- _attrspec_to_escape: this property's hand model IS the function py2v translates from the
+   source on every run (Gen/attrspec_escape_gen.v, translator module of property C04), and so agrees with
+   the one draw_screen's model uses ---------- *)
+Lemma escape_is_translated bib bbb (a : AttrFlow.aspec) :
+  attrspec_escape_gen.attrspec_to_sgr_gen
+    (fg_true a) (fg_high a) (fg_basic a) (fg_num a)
+    (fg_num a / 65536) ((fg_num a / 256) mod 256) (fg_num a mod 256)
+    (a_bold a) (a_italics a) (a_underline a) (a_blink a) (a_standout a) (a_strike a)
+    (bg_true a) (bg_high a) (bg_basic a) (bg_num a)
+    (bg_num a / 65536) ((bg_num a / 256) mod 256) (bg_num a mod 256) bib bbb
+  = AttrFlow.attrspec_to_escape bib bbb a.
+Proof.
+  unfold attrspec_escape_gen.attrspec_to_sgr_gen, AttrFlow.attrspec_to_escape, rgb_of, flag. cbv zeta.
+  destruct (fg_true a), (fg_high a), (fg_basic a), (bg_true a), (bg_high a), (bg_basic a);
+    cbn [app]; rewrite <- ?app_assoc; reflexivity.
+Qed.
+
 Lemma enc_agree bib bbb (a : AttrFlow.aspec) :
   DrawScreen.spec_to_sgr bib bbb (conv a) = AttrFlow.attrspec_to_escape bib bbb a.
 Proof.
-  unfold DrawScreen.spec_to_sgr, AttrFlow.attrspec_to_escape, conv, rgb_of, flag.
+  rewrite <- escape_is_translated. unfold DrawScreen.spec_to_sgr, conv, rgb_of.
   cbn [s_fgk s_fgn s_fr s_fg s_fb s_bgk s_bgn s_br s_bg s_bb s_bold s_ital s_under s_blink s_stand s_strike].
   destruct (fg_true a), (fg_high a), (fg_basic a), (bg_true a), (bg_high a), (bg_basic a); reflexivity.
 Qed.
